@@ -144,10 +144,9 @@ def notifyAttr : List String → PyM String
 
 /-- `_Method.__call__(self, *args, **kwargs)`: positional arguments arrive as a tuple, keywords as a
     dict; `if args and kwargs: raise ProtocolError`; `if args: send(name, args) else: send(name, kwargs)`.
-    A keyword named `self` collides with the receiver: Python itself raises `TypeError` at the call. -/
+    (`self` is taken from the positional arguments, so a keyword named `self` is an ordinary keyword.) -/
 def methodParams (args : List PyVal) (kwargs : List (PyVal × PyVal)) : PyM PyVal :=
-  if hasKeyStr "self" kwargs then raise "TypeError" (.str "got multiple values for argument 'self'")
-  else if (PyVal.tuple args).truthy && (PyVal.dict kwargs).truthy then
+  if (PyVal.tuple args).truthy && (PyVal.dict kwargs).truthy then
     raise "ProtocolError" (.str "Cannot use both positional and keyword arguments (according to JSON-RPC spec.)")
   else if (PyVal.tuple args).truthy then pure (.tuple args)
   else pure (.dict kwargs)
@@ -251,8 +250,7 @@ def extendJobName (acc : String) : List String → PyM String
 
 /-- `MultiCallMethod.__call__(*args, **kwargs)`: `if kwargs: params = kwargs else: params = args`. -/
 def jobParams (args : List PyVal) (kwargs : List (PyVal × PyVal)) : PyM PyVal :=
-  if hasKeyStr "self" kwargs then raise "TypeError" (.str "got multiple values for argument 'self'")
-  else if (PyVal.dict kwargs).truthy && (PyVal.tuple args).truthy then
+  if (PyVal.dict kwargs).truthy && (PyVal.tuple args).truthy then
     raise "ProtocolError" (.str "JSON-RPC does not support both positional and keyword arguments.")
   else if (PyVal.dict kwargs).truthy then pure (.dict kwargs)
   else pure (.tuple args)
